@@ -19,8 +19,9 @@ RULE = ("generated npm universes (packages, versions, four dependency sections +
         "or an alias, and resolutions whose two graphs are equal and have more than two nodes")
 TRUSTED = [
     "Coq 8.16.1 kernel; vm_compute for the examples and the constants obligation",
-    "translator harness/go/cmd/gotables (attribute keys, api System and VersionType numbers regenerated from the Go "
-    "sources each run)",
+    "translator harness/go/cmd/gotables (attribute keys, api System and VersionType numbers, and the lock table "
+    "api_map_functions: per function of api.go touching a.bundledVersions, whether it writes the map and which methods "
+    "of bundledVersionsMu it calls; regenerated from the Go sources each run)",
     "extraction (ExtrOcamlBasic only) + Extract/driver.ml; Go harness cmd/implrun (apiclient.go: fake Insights service, "
     "recording client, LocalClient loader written from the property text); python generator and oracle",
     "resolve.MatchRequirement (semver matching) enters the model as a table computed by the Go side per universe",
@@ -32,8 +33,11 @@ ASSUMPTIONS = [
     "the service is a function: the same request gets the same response during one resolution (Section variable svc)",
     "concrete versions and package names served by the service contain no '>' byte (hypothesis svc_plain of the "
     "commutation and interleaving theorems)",
-    "critical sections are atomic steps in the model; physical data races and the Go memory model are outside it and "
-    "are covered only by the -race runs",
+    "critical sections are atomic steps in the model. Properties/C18_lock.v justifies that for the map itself: with "
+    "the lock modes read from api.go (a function that writes the map calls Lock, one that reads it calls Lock or "
+    "RLock, in the same function as the access) no two critical sections of which one writes can overlap; the shared-"
+    "lock writer and the unlocked reader are refuted variants. The semantics of sync.(RW)Mutex, the Go memory model, "
+    "and data reachable through stored values after unlocking stay outside and are covered only by the -race runs",
     "sort.Slice is modelled as a stable insertion sort, which is what Go runs for at most 12 elements; 19 in 20 "
     "universes stay within that range and are compared exactly, 1 in 20 has 13-20 flattened dependencies and/or "
     "bundled entries in one response and is compared up to the order of each returned list (clauses and graphs are "
@@ -43,6 +47,11 @@ ASSUMPTIONS = [
     "(the four calls, LocalClient and hence the graphs are keyed by it); the model's service record returns no keys",
     "wf_reqs, plain and the no-> condition on versions are the Coq predicates evaluated by the extracted model on "
     "each response (kind api_wf), not the generator's label",
+    "dependency types: Properties/C18_deptype.v proves, over the heap model of attr.Set (Resolve/Attr.v, tied to Go by "
+    "the C19 correspondence), that the type flattenNPMDeps builds by Clone (+AddAttr KnownAs) is indistinguishable by "
+    "IsRegular/GetAttr/HasAttr/Equal/Compare from the same type built from the zero value; that api.go performs exactly "
+    "these operations (Clone of the section type per entry) is read off the source, and its effect is observed on Go: "
+    "every requirement reports IsRegular and Equal/Compare against a rebuilt type",
     "the npm resolver and LocalClient are not modelled here (C06/C14): graph equality API vs Local and the trace "
     "discipline of the resolver are decided by the direct oracle on the Go outputs",
 ]
@@ -55,7 +64,11 @@ MANIFEST = dict(
           "its bundling parent requires exactly that version and MatchingVersions returns exactly it; the four calls agree "
           "in every later state; aliases npm:name@range split at the last @ and carry KnownAs; bundledVersions updates "
           "commute; under every interleaving of atomic calls each client following the trace discipline gets its "
-          "sequential answers, and cannot tell the lazy API client from an eager pre-loaded one; a program observing its "
+          "sequential answers, and cannot tell the lazy API client from an eager pre-loaded one; every dependency type "
+          "built by Clone of a section type (+KnownAs) is observationally equal (IsRegular, GetAttr for every key, Equal, "
+          "Compare) to the same type built from the zero value, in particular a cloned empty set is regular; with the lock "
+          "modes regenerated from api.go, critical sections touching the bundle map never overlap when one writes "
+          "(writer exclusive, readers locked); a program observing its "
           "client only through the four calls returns equal results on observationally equal clients. Tied to the code by "
           "differential execution (call histories and the resolver's own call traces); clauses, graph(API)=graph(Local) "
           "and 16-goroutine runs (also -race) evaluated directly on Go."),
@@ -276,7 +289,7 @@ def check_clauses(ctx, case_text, u, hyp, ops, tags, idx, results, keys):
                     if b"@" in rng_ or x == b"":
                         continue
                     ctx.count("clause:alias" + (":scoped" if x.startswith(b"@") else ""))
-                    want = [[NPM_SYS[0], x, 2, rng_], attrs_with(base[s], K_KNOWN, n)]
+                    want = [[NPM_SYS[0], x, 2, rng_], attrs_with(base[s], K_KNOWN, n), 0, 1]
                     if want not in got:
                         viol("aliased dependency %s -> %s is not a requirement on the real name carrying the alias (%s)"
                              % (n.decode(), r.decode(), where), got, sx(want))
@@ -285,7 +298,7 @@ def check_clauses(ctx, case_text, u, hyp, ops, tags, idx, results, keys):
         for i, e in enumerate(ents):
             b = e["b"]
             ver = [[NPM_SYS[0], e["m"], 1, b["version"]], [[K_DERIVED, b["name"]]]]
-            req = [[NPM_SYS[0], e["m"], 2, b["version"]], []]
+            req = [[NPM_SYS[0], e["m"], 2, b["version"]], [], 1, 1]
             for phase in ((0, 1) if svc_plain else (0,)):
                 tv = by_tag.get(("versions", root, i, phase))
                 if tv is None:
@@ -592,6 +605,15 @@ def run(ctx, with_model=True):
                 ctx.violation("an APIClient call panicked", "api\t" + case, observed=line[:2000])
                 break
         check_clauses(ctx, "api\t" + case, u, hyp, ops, tags, idx, res, keys)
+        for o, r in zip(ops, res):
+            if o[0] == 2 and r[0] == b"ok":
+                for q in r[1]:
+                    ctx.count("clause:dep-type")
+                    if q[3] != 1 or q[2] != (1 if q[1] == [] else 0):
+                        ctx.violation("a requirement's dependency type differs observably (IsRegular/Equal/Compare) from the "
+                                      "same type built from the zero value, as a LocalClient holds it", "api\t" + case,
+                                      observed=sx(q), required="(key attrs regular=1 iff no attrs, same=1)")
+                        break
         if len(ctx.samples) < 2 and any(len(v) > 2 for v in idx.values()):
             ctx.sample({"kind": "api", "case": case[:600], "impl": line[:400]})
 
